@@ -187,6 +187,13 @@ func (fr *frame) unop(instr *ssa.UnOp, x Value) Value {
 	case token.ARROW:
 		return p.chanRecv(x.(*Chan), instr.CommaOk, instr.Type())
 	case token.MUL:
+		if ref, ok := x.(symElemRef); ok {
+			res := ref.elems[len(ref.elems)-1].(*Term)
+			for i := len(ref.elems) - 2; i >= 0; i-- {
+				res = tt.Ite(tt.Eq(ref.idx, tt.BVC(64, uint64(i))), ref.elems[i].(*Term), res)
+			}
+			return res
+		}
 		addr := x.(*Value)
 		if addr == nil {
 			panic(runtimePanic("nil pointer dereference"))
@@ -636,7 +643,7 @@ func (w *Worker) callBuiltin(caller *frame, callpos token.Pos, fn *ssa.Builtin, 
 				n = len(dst)
 			}
 			for i := 0; i < n; i++ {
-				dst[i] = bs[i]
+				p.setCell(&dst[i], bs[i])
 			}
 			return tt.BVC(64, uint64(n))
 		}
@@ -651,7 +658,7 @@ func (w *Worker) callBuiltin(caller *frame, callpos token.Pos, fn *ssa.Builtin, 
 			tmp[i] = copyVal(src[i])
 		}
 		for i := 0; i < n; i++ {
-			dst[i] = tmp[i]
+			p.setCell(&dst[i], tmp[i])
 		}
 		return tt.BVC(64, uint64(n))
 
